@@ -239,3 +239,8 @@ def run(rep, programs):  # noqa: F811
     # every row are visited (the whole of C12's argument is a premise here)
     from props import c12
     c12.run(rep, programs)
+
+
+EXPLANATION = EXPLANATION + (
+    " The whole of C12's argument (search loops inside a tree visit every huge frame and row) is a premise and is checked here as well."
+)
